@@ -1,7 +1,9 @@
 // C09 (part 2) — thread-count differential: the same generated case is executed under
 // omp_set_num_threads(T) for T in {1,2,3,4,5,8,16,17,24,32} inside one process and the results are compared:
 // bitwise where the property says bitwise, within a stated rounding bound where it allows rounding.
+#include <complex>
 #include <boost/property_tree/ptree.hpp>
+#include <amgcl/value_type/complex.hpp>
 #include <amgcl/backend/builtin.hpp>
 #include <amgcl/adapter/crs_tuple.hpp>
 #include <amgcl/amg.hpp>
@@ -99,6 +101,75 @@ static void prop_kernels(Tape &t, Ctx &c) {
     // across the 16/17 switch the product may differ by summation order only
     std::string why;
     VF_REQUIRE(close_csr(prod[7], prod[0], 64 * 2.3e-16 * (k + 1), why), "product differs beyond rounding between 16 and 17 threads: " << why);
+}
+
+// ------------------------------------------------------------------ kernels on complex values (the element inner product is not symmetric there)
+typedef std::complex<double> Z;
+static bool same_bits_z(const std::vector<Z> &a, const std::vector<Z> &b) {
+    return a.size() == b.size() && (a.empty() || memcmp(a.data(), b.data(), a.size() * sizeof(Z)) == 0);
+}
+static bool same_csr_z(const Csr<Z> &a, const Csr<Z> &b) {
+    return a.n == b.n && a.m == b.m && a.ptr == b.ptr && a.col == b.col && same_bits_z(a.val, b.val);
+}
+static Csr<Z> gen_complex_sparse(Tape &t, ptrdiff_t n, ptrdiff_t m, bool sorted) {
+    Csr<double> P = gen_sparse_int(t, n, m, 1, sorted);
+    Csr<Z> A; A.n = P.n; A.m = P.m; A.ptr = P.ptr; A.col = P.col; A.val.resize(P.val.size());
+    for (auto &v : A.val) v = Z(t.slogu(1e-2, 1e2), t.chance(1, 8) ? 0.0 : t.slogu(1e-2, 1e2));
+    return A;
+}
+static std::vector<Z> gen_vec_z(Tape &t, size_t n) {
+    std::vector<double> re = gen_vec(t, n, 3), im = gen_vec(t, n, 3);
+    std::vector<Z> v(n); for (size_t i = 0; i < n; ++i) v[i] = Z(re[i], im[i]);
+    return v;
+}
+static void prop_kernels_complex(Tape &t, Ctx &c) {
+    int cls = static_cast<int>(t.u(0, 2));
+    ptrdiff_t hi = cls == 0 ? 6 : cls == 1 ? 40 : 200;
+    ptrdiff_t n = t.u(1, hi), k = t.u(1, hi), m = t.u(1, hi);
+    Csr<Z> A = gen_complex_sparse(t, n, k, t.b()), Bm = gen_complex_sparse(t, k, m, true);
+    std::vector<Z> x = gen_vec_z(t, k), y0 = gen_vec_z(t, n), z = gen_vec_z(t, n);
+    Z alpha(t.slogu(0.1, 10), t.slogu(0.1, 10)), beta = t.b() ? Z(0.0) : Z(t.slogu(0.1, 10), t.slogu(0.1, 10));
+    c.desc << "complex kernels n=" << n << " k=" << k << " m=" << m << " nnz(A)=" << A.nnz() << " nnz(B)=" << Bm.nnz() << " alpha=" << alpha << " beta=" << beta;
+    bool genuinely_complex = false;
+    for (ptrdiff_t i = 0; i < n; ++i) if ((y0[i] * std::conj(z[i])).imag() != 0) genuinely_complex = true;
+    c.nontrivial = A.nnz() >= 2 && Bm.nnz() >= 2 && genuinely_complex;
+    c.label(genuinely_complex ? "inner-product-not-real" : "inner-product-real");
+    std::vector<Csr<Z>> prod(NTH), tr(NTH);
+    std::vector<std::vector<Z>> sp(NTH), res(NTH), ax(NTH), ax3(NTH), vm(NTH);
+    std::vector<Z> ip(NTH);
+    for (int q = 0; q < NTH; ++q) {
+        set_threads(TH[q]);
+        auto a = to_crs<Z>(A), b = to_crs<Z>(Bm);
+        prod[q] = from_crs(*ab::product(*a, *b, true));
+        tr[q] = from_crs(*ab::transpose(*a));
+        std::vector<Z> y = y0; ab::spmv(alpha, *a, x, beta, y); sp[q] = y;
+        std::vector<Z> r(n); ab::residual(y0, *a, x, r); res[q] = r;
+        std::vector<Z> w = z; ab::axpby(alpha, y0, beta, w); ax[q] = w;
+        std::vector<Z> w3 = z; ab::axpbypcz(alpha, y0, beta, z, Z(0.5, -0.25), w3); ax3[q] = w3;
+        std::vector<Z> w4 = z; ab::vmul(alpha, y0, z, beta, w4); vm[q] = w4;
+        ip[q] = ab::inner_product(y0, z);
+    }
+    set_threads(c.threads);
+    for (int q = 1; q < NTH; ++q) {
+        VF_REQUIRE(same_csr_z(tr[q], tr[0]), "complex transpose differs between 1 and " << TH[q] << " threads");
+        VF_REQUIRE(same_bits_z(sp[q], sp[0]), "complex spmv differs between 1 and " << TH[q] << " threads");
+        VF_REQUIRE(same_bits_z(res[q], res[0]), "complex residual differs between 1 and " << TH[q] << " threads");
+        VF_REQUIRE(same_bits_z(ax[q], ax[0]), "complex axpby differs between 1 and " << TH[q] << " threads");
+        VF_REQUIRE(same_bits_z(ax3[q], ax3[0]), "complex axpbypcz differs between 1 and " << TH[q] << " threads");
+        VF_REQUIRE(same_bits_z(vm[q], vm[0]), "complex vmul differs between 1 and " << TH[q] << " threads");
+        int ref = TH[q] <= 16 ? 0 : 7;
+        VF_REQUIRE(same_csr_z(prod[q], prod[ref]), "complex product differs between " << TH[ref] << " and " << TH[q] << " threads");
+    }
+    // inner product <x,y> = sum x_i conj(y_i): the same value at every thread count up to the summation-order rounding bound
+    std::complex<long double> ref(0, 0); long double sabs = 0;
+    for (ptrdiff_t i = 0; i < n; ++i) {
+        std::complex<long double> a(y0[i].real(), y0[i].imag()), b(z[i].real(), -z[i].imag());
+        ref += a * b; sabs += std::abs(a) * std::abs(b);
+    }
+    for (int q = 0; q < NTH; ++q) {
+        std::complex<long double> g(ip[q].real(), ip[q].imag());
+        VF_REQUIRE(std::abs(g - ref) <= (n + 8) * 2.5e-16L * sabs, "complex inner_product at " << TH[q] << " threads: " << ip[q] << " vs (" << static_cast<double>(ref.real()) << "," << static_cast<double>(ref.imag()) << ") [1 thread: " << ip[0] << "]");
+    }
 }
 
 // product bitwise across the 16 -> 17 thread switch (property demands it; see known finding F-rmerge)
@@ -315,6 +386,7 @@ static void prop_solve(Tape &t, Ctx &c) {
 static std::vector<Prop> props() {
     return {
         Prop("kernels", prop_kernels, 120, 2500, 100, 40, {1}, 2, 4),
+        Prop("kernels_complex", prop_kernels_complex, 120, 2500, 100, 40, {1}, 2, 4),
         Prop("gs", prop_gs, 80, 1500, 100, 40, {1}, 2, 4),
         Prop("hierarchy", prop_hierarchy, 30, 600, 100, 60, {1}, 4, 8),
         Prop("solve", prop_solve, 25, 400, 100, 40, {1}, 2, 4),
